@@ -14,7 +14,9 @@ def u32(rng):
 
 def small_val(rng, depth, single_key):
     """AMF0 value whose encoding does not depend on map order when single_key"""
-    v = GA.gen_val(rng, depth, allow_bad=False)
+    # now and then a value the AMF0 encoder refuses (empty / oversize name, oversize string): converting such a
+    # message must fail cleanly and leave no trace for the messages converted after it
+    v = GA.gen_val(rng, depth, allow_bad=rng.chance(1, 10))
     if single_key:
         v = strip_keys(v)
     return v
